@@ -3,6 +3,8 @@
 //! Supports JSON, UTF-8, raw binary, and BEVE body formats.
 //! Spec reference: <https://github.com/beve-org/beve>
 
+#![cfg_attr(kani, feature(allocator_api))]
+
 #[cfg(not(target_arch = "wasm32"))]
 pub mod async_client;
 #[cfg(not(target_arch = "wasm32"))]
